@@ -315,7 +315,7 @@ class Ctx:
             f.write("\n")
         if not self.violations:
             print("OK property=%s tier=%s obligations=%d/%d evaluations=%d wall=%.1fs" % (
-                self.prop, self.tier, cov["discharged"], cov["obligations"], cov["evaluations"], wall))
+                self.prop, self.tier, cov.get("discharged", 0), cov.get("obligations", 0), cov.get("evaluations", 0), wall))
             return 0
         for i, (obj, nofound) in enumerate(self.violations):
             rp = os.path.join(self.work, "replay-%d.json" % i)
